@@ -98,6 +98,11 @@ def r12_1(ctx, m, schema):
             d = [s for s in walk_own(wf.node) if isinstance(s, ast.Assign) and norm(s.targets[0]) == c.func.id and isinstance(s.value, ast.Call) and norm(s.value.func).endswith("WavefrontAligner")]
             if d:
                 qry_name = norm(c.args[0])
+    if qry_name is None:
+        # WavefrontAligner(ref)(query, ...): constructed and called in one expression
+        for c in walk_own(wf.node):
+            if isinstance(c, ast.Call) and isinstance(c.func, ast.Call) and norm(c.func.func).endswith("WavefrontAligner") and c.args and norm(c.args[0]) in wt:
+                qry_name = norm(c.args[0])
     if ref_name not in wt or qry_name not in wt:
         raise AnalysisError("R12.1", wf.where(), f"cannot identify which batch elements are aligned (reference {ref_name}, query {qry_name})")
     i_ref, i_qry = wt.index(ref_name), wt.index(qry_name)
@@ -149,6 +154,17 @@ def r12_1(ctx, m, schema):
 
 def r12_2(ctx, m):
     wf = m.worker
+    # the operations that are tallied and spelled come from the aligner for every record that is realigned: a branch that
+    # builds them some other way gives a valid-looking CIGAR without the aligner's optimality
+    for l in walk_own(wf.node):
+        if isinstance(l, ast.For) and isinstance(l.iter, ast.Name) and isinstance(l.target, ast.Tuple) and len(l.target.elts) == 2:
+            defs_ = [s_ for s_ in walk_own(wf.node) if isinstance(s_, ast.Assign) and norm(s_.targets[0]) == l.iter.id]
+            if defs_ and any(".cigartuples" in norm(s_.value) for s_ in defs_):
+                other = [s_ for s_ in defs_ if ".cigartuples" not in norm(s_.value)]
+                for s_ in other:
+                    ctx.violated("R12.2", wf.where(s_), f"on one branch the operations come from `{norm(s_.value)[:70]}`, not from the aligner: such a record gets a CIGAR that consumes both strings but is not an optimal alignment (its cost can exceed the input CIGAR's)", key_of(wf, f"ops-not-from-aligner:{norm(s_.value)[:40]}"))
+                if other:
+                    return
     # the aligner call result and the aligner object
     res = alg = None
     call = None
